@@ -9,7 +9,6 @@ import (
 	"fmt"
 	"hash/fnv"
 	"net"
-	"strconv"
 	"sync"
 	"sync/atomic"
 	"syscall"
@@ -102,41 +101,48 @@ type Srv struct {
 	lis      net.Listener
 	done     chan struct{} // closed when the current incarnation stops
 	entered  atomic.Int64
-	resv     int // fd of a bound, non-listening socket that keeps the port while the server is down (-1: none)
+	resv     int // fd of a bound, never listening socket that keeps the port for the whole life of the server (-1: none)
 }
 
-// reserve binds (without listening) the server's address so that nobody else gets the port
-// while the server is down; connection attempts are refused meanwhile.
-func (s *Srv) reserve() {
-	host, portStr, err := net.SplitHostPort(s.Addr)
+// reservePort binds a socket to 127.0.0.1:0 and keeps it for the whole life of the server (it never listens).
+// The socket gets SO_REUSEPORT after the bind, and every listener of this server is created with SO_REUSEPORT too,
+// so listeners can come and go on the port while nobody else can get it: a stopped server refuses connections,
+// a restarted one listens on the same address, and there is no instant at which the port is free.
+func reservePort() (fd int, addr string, err error) {
+	fd, err = syscall.Socket(syscall.AF_INET, syscall.SOCK_STREAM, 0)
 	if err != nil {
-		return
+		return -1, "", err
 	}
-	port, _ := strconv.Atoi(portStr)
-	ip := net.ParseIP(host).To4()
-	if ip == nil {
-		return
+	sa := &syscall.SockaddrInet4{Port: 0, Addr: [4]byte{127, 0, 0, 1}}
+	if err = syscall.Bind(fd, sa); err != nil {
+		syscall.Close(fd)
+		return -1, "", err
 	}
-	fd, err := syscall.Socket(syscall.AF_INET, syscall.SOCK_STREAM, 0)
-	if err != nil {
-		return
-	}
-	syscall.SetsockoptInt(fd, syscall.SOL_SOCKET, syscall.SO_REUSEADDR, 1)
-	sa := &syscall.SockaddrInet4{Port: port}
-	copy(sa.Addr[:], ip)
-	for i := 0; i < 50; i++ {
-		if err = syscall.Bind(fd, sa); err == nil {
-			break
-		}
-		time.Sleep(time.Millisecond)
-	}
+	got, err := syscall.Getsockname(fd)
 	if err != nil {
 		syscall.Close(fd)
-		return
+		return -1, "", err
 	}
-	s.mu.Lock()
-	s.resv = fd
-	s.mu.Unlock()
+	syscall.SetsockoptInt(fd, syscall.SOL_SOCKET, syscall.SO_REUSEADDR, 1)
+	if err = syscall.SetsockoptInt(fd, syscall.SOL_SOCKET, soReusePort, 1); err != nil {
+		syscall.Close(fd)
+		return -1, "", err
+	}
+	return fd, fmt.Sprintf("127.0.0.1:%d", got.(*syscall.SockaddrInet4).Port), nil
+}
+
+const soReusePort = 0xf // SO_REUSEPORT on linux
+
+func listenReuse(addr string) (net.Listener, error) {
+	lc := net.ListenConfig{Control: func(network, address string, c syscall.RawConn) error {
+		var serr error
+		c.Control(func(fd uintptr) {
+			syscall.SetsockoptInt(int(fd), syscall.SOL_SOCKET, syscall.SO_REUSEADDR, 1)
+			serr = syscall.SetsockoptInt(int(fd), syscall.SOL_SOCKET, soReusePort, 1)
+		})
+		return serr
+	}}
+	return lc.Listen(context.Background(), "tcp", addr)
 }
 
 func (s *Srv) unreserve() {
@@ -165,11 +171,24 @@ func NewSrv(index int, nodeID uint32, addr string, pure bool, opts ...gorums.Ser
 	s := &Srv{Index: index, NodeID: nodeID, Pure: pure, Opts: opts, conns: map[context.Context]*ConnInfo{}, resv: -1}
 	b := Behaviour(DefaultBehaviour)
 	s.behave.Store(&b)
-	lis, err := net.Listen("tcp", addr)
+	var fd int
+	var a string
+	var err error
+	for try := 0; try < 40; try++ { // ride out a momentary shortage of ports
+		if fd, a, err = reservePort(); err == nil {
+			break
+		}
+		time.Sleep(50 * time.Millisecond)
+	}
 	if err != nil {
 		return nil, err
 	}
-	s.Addr = lis.Addr().String()
+	s.resv, s.Addr = fd, a
+	lis, err := listenReuse(s.Addr)
+	if err != nil {
+		s.unreserve()
+		return nil, err
+	}
 	s.start(lis)
 	return s, nil
 }
@@ -199,7 +218,6 @@ func (s *Srv) Stop() {
 		// tear the connections down first: parked handlers must not get an answer out before the crash
 		gs.Stop()
 		close(done)
-		s.reserve()
 	}
 }
 
@@ -214,9 +232,8 @@ func (s *Srv) Running() bool {
 func (s *Srv) Restart() error {
 	var lis net.Listener
 	var err error
-	s.unreserve()
 	for i := 0; i < 50; i++ {
-		lis, err = net.Listen("tcp", s.Addr)
+		lis, err = listenReuse(s.Addr)
 		if err == nil {
 			break
 		}
